@@ -12,6 +12,9 @@ from sa import cli
 from sa.rules import shared
 
 
+OPAQUE = bool(os.environ.get("OPAQUE"))
+
+
 def rename_locals(src, fn):
     """rename locals of function node fn (by token positions) -> new source"""
     params = {a.arg for a in fn.args.posonlyargs + fn.args.args + fn.args.kwonlyargs}
@@ -29,9 +32,10 @@ def rename_locals(src, fn):
         return None
     # do not rename names that are also used as keyword-argument names or attribute names: only Name nodes are touched
     edits = []
+    opaque = {t: (f"zq{i}" if OPAQUE else t + "_rn") for i, t in enumerate(sorted(targets))}
     for n in ast.walk(fn):
         if isinstance(n, ast.Name) and n.id in targets:
-            edits.append((n.lineno, n.col_offset, len(n.id), n.id + "_rn"))
+            edits.append((n.lineno, n.col_offset, len(n.id), opaque[n.id]))
         # lambda / nested def parameters shadowing? skip functions that define nested defs with same names
     for n in ast.walk(fn):
         if n is not fn and isinstance(n, (ast.FunctionDef, ast.Lambda)):
@@ -39,7 +43,7 @@ def rename_locals(src, fn):
             for p in a.posonlyargs + a.args + a.kwonlyargs:
                 if p.arg in targets:
                     if isinstance(n, ast.Lambda):
-                        edits.append((p.lineno, p.col_offset, len(p.arg), p.arg + "_rn"))
+                        edits.append((p.lineno, p.col_offset, len(p.arg), opaque[p.arg]))
                     else:
                         return None
     lines = src.split("\n")
